@@ -215,6 +215,9 @@ def build_synthetic(d):
     P = [float(ru.conv_pressure(float(v), REL, prep, fluid, T)) for v in p]
     Q = [float(ru.conv_loading(float(v), MMOL, lrep, fluid, T)) for v in q]
     Tst = T if u["t"] == "K" else T - 273.15
+    if d.get("origin"):
+        # the origin recorded as the first measured point (supported by the initial-slope routines)
+        P, Q, branch = [0.0] + P, [0.0] + Q, [False] + list(branch)
     return pygaps.PointIsotherm(
         pressure=P, loading=Q, branch=branch, material=Material("m-syn", density=1.7, molar_mass=420.0),
         adsorbate=name, temperature=Tst,
@@ -293,6 +296,10 @@ def _reimport(iso, via):
         try:
             if via == "csv":
                 return pgp.isotherm_from_csv(pgp.isotherm_to_csv(iso))
+            if via == "xl":  # the Excel writer stores full doubles (no rounding)
+                xp = os.path.join(tmp, "iso.xls")
+                pgp.isotherm_to_xl(iso, xp)
+                return pgp.isotherm_from_xl(xp)
             pid = os.getpid()
             if _DB_TEMPLATE.get("pid") != pid:
                 from pygaps.utilities.sqlite_db_creator import db_create
@@ -424,8 +431,8 @@ def target(draw, abs_only=False, bases=None, json_share=4):
     loading = draw(st.sampled_from(pool))
     return {"p": list(p), "l": list(loading), "t": draw(st.sampled_from(["K", "°C"])),
             "order": draw(st.integers(0, 5)), "json": draw(st.sampled_from([False] * (json_share - 1) + [True])),
-            # when exported and re-imported: through JSON or a SQLite database file (CSV / Excel / AIF round data to 8 decimals: not a lossless route)
-            "via": draw(st.sampled_from(["json", "json", "db"])),
+            # when exported and re-imported: through JSON or a SQLite database file (CSV / AIF round data to 8 decimals: not a lossless route)
+            "via": draw(st.sampled_from(["json", "json", "db", "xl"])),
             # analyse first, then convert THE SAME object in place and analyse again (caches filled by the first analysis)
             "inplace": draw(st.sampled_from([False, False, True]))}
 
@@ -1190,6 +1197,8 @@ def strat_henry(draw, method):
     tgt_any, tgt_sup = draw(target()), draw(target(abs_only=True, bases=("molar", "mass")))
     iso = draw(iso_source(HENRY_SAMPLES, ["lang", "bet", "micro", "lang"], sample_share=2))
     sup = iso["kind"] == "sample" and iso["name"] in SUPERCRITICAL
+    if iso["kind"] != "sample" and method == "slope" and draw(st.sampled_from([False, False, True])):
+        iso = dict(iso, origin=True)
     d["iso"], d["tgt"] = iso, (tgt_sup if sup else tgt_any)
     return d
 
